@@ -371,11 +371,13 @@ var shapes = []struct {
 	{`P0`, 1}, {`P0P1`, 2}, {`P0P1P2`, 3}, {`P0/P1`, 2}, {`P0 P1`, 2}, {`P0&amp;P1`, 2}, {`P0:P1`, 2}, {`P0&colon;P1`, 2}, {`P0&#58;P1`, 2}, {`P0t:P1`, 2}, {`P0:`, 1}, {`P0:alert(1)`, 1}, {`P0&Tab;:x`, 1}, {`P0x`, 1}, {`P0, P1`, 2}, {`P0 1x, P1 2x`, 2},
 	{`{{if $.C1}}P0{{end}}P1`, 2}, {`{{if $.C1}}P0{{else}}x{{end}}P1`, 2}, {`{{range $.L0}}{{.E0}}{{end}}`, 0}, {`{{range $.L0}}{{.E0}}{{.E1}}{{end}}`, 0}, {`{{range $.L0}}{{.E0}}/{{end}}`, 0}, {`P0{{range $.L0}}{{.E0}}{{end}}`, 1},
 	{`{{with $.S0}}{{.}}{{end}}P1`, 2}, {`{{template "leaf" $.S0}}P1`, 2}, {`P0{{template "leaf" $.S1}}`, 2}, {`{{template "two" $}}`, 0}, {`{{template "leaf" $.S0}}{{template "leaf" $.S1}}`, 2}, {`{{template "leaf" $.S0}}/{{template "leaf" $.S1}}`, 2}, {`{{template "leaf" $.S0}}" title="x" data-x="/p/{{template "leaf" $.S1}}`, 2}, {`/q/{{template "leaf" $.S0}}"></a><a href="{{template "leaf" $.S1}}`, 2}, {`{{$.S0 | urlquery}}P1`, 2}, {`{{if $.C1}}{{else}}java{{end}}P0`, 1}, {`{{if $.C1}}/x/{{else}}P0{{end}}:alert(1)`, 1}, {`{{if $.C1}}P0{{else}}/x/{{end}}:alert(1)`, 1}, {`{{if $.C1}}{{else}}x{{end}}P0`, 1}, {`{{if $.C1}}/p/{{else}}{{if $.C0}}/p/{{else}}/p?q={{end}}{{end}}P0`, 1}, {`{{if $.C1}}P0{{else}}x{{end}}y:P1`, 2}, {`{{if $.C1}}y{{else}}P0t{{end}}:x`, 1}, {`{{if $.C1}}P0t{{else}}y{{end}}:x`, 1}, {`{{if $.C0}}{{if $.C1}}/a/{{else}}P0{{end}}{{else}}/b/{{end}}:x`, 1}, {`P0&#x3{{/* c */}}a;alert(1)`, 1}, {`P0&col{{if $.C1}}on;{{end}}x`, 1}, {`{{$.S0 | html}}P1`, 2}, {`{{print $.S0 $.S1}}`, 0},
+	// a character reference for ":" torn by an empty branch or a variable assignment
+	{`P0&#5{{if $.C1}}{{end}}8;alert(1)`, 1}, {`P0&col{{$y := 1}}on;alert(1)`, 1}, {`P0&#x3{{with $.C1}}{{end}}a;alert(1)`, 1}, {`P0&#5{{template "empty"}}8;alert(1)`, 1},
 	// the action that starts the value sits in the else branch; both branches end in the same static value
 	{`{{if $.C1}}{{else}}P0{{end}}P1`, 2}, {`{{if $.C1}}{{else}}P0{{end}}:alert(1)`, 1}, {`{{with $.C1}}{{else}}P0{{end}}P1`, 2}, {`{{range $.L2}}{{else}}P0{{end}}P1`, 2}, {`{{if $.C1}}{{else}}{{template "leaf" $.S0}}{{end}}P1`, 2}, {`{{if $.C1}}{{else}}{{if $.C0}}{{else}}P0{{end}}{{end}}P1`, 2},
 }
 
-const helpersW1 = `{{define "leaf"}}{{.}}{{end}}{{define "two"}}{{$.S0}}{{$.S1}}{{end}}`
+const helpersW1 = `{{define "leaf"}}{{.}}{{end}}{{define "two"}}{{$.S0}}{{$.S1}}{{end}}{{define "empty"}}{{end}}`
 
 func w1Template(t target, q, pre string, shape string) string {
 	s := shape
